@@ -437,6 +437,7 @@ impl<'w, 'k, W: Write> Struct<'w, 'k, W> {
     where
         T: ?Sized + Serialize,
     {
+        let written = self.children.len();
         let ser = ContentSerializer {
             writer: &mut self.children,
             level: self.ser.ser.level,
@@ -459,8 +460,11 @@ impl<'w, 'k, W: Write> Struct<'w, 'k, W> {
                 key: XmlName::try_from(key)?,
                 ser,
             })?;
-            // Element was written so we need to indent next field unless it is a text field
-            self.write_indent = true;
+            // Element was written so we need to indent next field unless it is a text field.
+            // An empty sequence writes nothing and leaves the decision as it was
+            if self.children.len() != written {
+                self.write_indent = true;
+            }
         }
         Ok(())
     }
